@@ -25,7 +25,9 @@ func init() {
 		paths, _ := filepath.Glob(filepath.Join(root, "findings.d", "*.txt"))
 		paths = append(paths, filepath.Join(root, "known-findings.txt"))
 		re := regexp.MustCompile(`^finding:\s+property=C12\s+class=(\S+)`)
+		reFixed := regexp.MustCompile(`^fixed:\s+property=C12\s+\S+\s+class=(\S+)`)
 		set := map[string]bool{}
+		fixedSet := map[string]bool{}
 		for _, p := range paths {
 			data, err := os.ReadFile(p)
 			if err != nil {
@@ -34,6 +36,9 @@ func init() {
 			for _, l := range strings.Split(string(data), "\n") {
 				if m := re.FindStringSubmatch(strings.TrimSpace(l)); m != nil {
 					set[m[1]] = true
+				}
+				if m := reFixed.FindStringSubmatch(strings.TrimSpace(l)); m != nil {
+					fixedSet[m[1]] = true
 				}
 			}
 		}
@@ -48,6 +53,21 @@ func init() {
 		for i, c := range classes {
 			sep := ";"
 			if i == len(classes)-1 {
+				sep = ""
+			}
+			fmt.Fprintf(&b, "  %s%s\n", coqStr(c), sep)
+		}
+		b.WriteString("].\n\n")
+		var fixed []string
+		for c := range fixedSet {
+			fixed = append(fixed, c)
+		}
+		sort.Strings(fixed)
+		b.WriteString("(* classes of repaired defects (fixed: lines), kept as regression inputs *)\n")
+		b.WriteString("Definition gen_c12_fixed_classes : list string := [\n")
+		for i, c := range fixed {
+			sep := ";"
+			if i == len(fixed)-1 {
 				sep = ""
 			}
 			fmt.Fprintf(&b, "  %s%s\n", coqStr(c), sep)
